@@ -11,6 +11,11 @@
     bodies with escapes at the seams, as initializer / call argument /
     _Static_assert message: the Constant carries the first prefix that occurs
     (whole) and the bodies in order;
+(E) every literal kind (each table integer / float the reference accepts,
+    character constants and strings with each prefix) in every expression
+    position (initialisers, array bounds, constant expressions, statement
+    starts, conditions, for clauses, operands of every operator): accepted,
+    and the Constant has the same type and spelling everywhere;
 (C) every MUST-ACCEPT literal of (A) and (B) through CParser.parse:
     Constant.value == spelling, Constant.type == the type the suffix / prefix
     implies.
@@ -339,6 +344,155 @@ def _runs_work(chunk):
 
 
 # ---------------------------------------------------------------------------
+# (E) every literal kind in every expression position
+# ---------------------------------------------------------------------------
+# (name, class, template with @ for the literal, other constants in the
+#  template, may the literal be a string here?)  A string literal is put only
+# where an expression of pointer/array type may stand.
+_F = "void f(void) { %s }"
+POSITIONS = [
+    ("initializer", "initializer", "int v = @;", (), True),
+    ("brace-initializer", "initializer", "int v[] = { @ };", (), True),
+    ("nested-brace-initializer", "initializer", "int v[][n] = { { a, @ } };", (), True),
+    ("designated-initializer", "initializer", "struct S v = { .m = @ };", (), True),
+    ("designator-index", "designator", "int v[n] = { [@] = a };", (), False),
+    ("compound-literal", "initializer", _F % "p = (T){ @ };", (), True),
+    ("array-bound", "array-bound", "int a[@];", (), False),
+    ("array-bound-2d", "array-bound", "int a[n][@];", (), False),
+    ("array-bound-parameter", "array-bound", "void g(int a[@]);", (), False),
+    ("array-bound-abstract", "array-bound", "void g(int [@]);", (), False),
+    ("array-bound-static", "array-bound", "void g(int a[static @]);", (), False),
+    ("array-bound-qualified", "array-bound", "void g(int a[const @]);", (), False),
+    ("array-bound-typename", "array-bound", "int v = sizeof(int [@]);", (), False),
+    ("array-bound-member", "array-bound", "struct S { int m[@]; };", (), False),
+    ("bit-field-width", "constant-expression", "struct S { int m : @; };", (), False),
+    ("enumerator-value", "constant-expression", "enum E { K = @ };", (), False),
+    ("case-label", "constant-expression", _F % "switch (a) { case @: ; }", (), False),
+    ("alignas-argument", "constant-expression", "_Alignas(@) int v;", (), False),
+    ("static-assert-condition", "constant-expression", '_Static_assert(@, "m");', (("string", '"m"'),), False),
+    ("static-assert-message", "static-assert-message", "_Static_assert(a, @);", (), "only"),
+    ("expression-statement", "statement-start", _F % "@;", (), True),
+    ("statement-after-declaration", "statement-start", _F % "int y; @;", (), True),
+    ("if-body", "statement-start", _F % "if (a) @;", (), True),
+    ("else-body", "statement-start", _F % "if (a) ; else @;", (), True),
+    ("while-body", "statement-start", _F % "while (a) @;", (), True),
+    ("do-body", "statement-start", _F % "do @; while (a);", (), True),
+    ("for-body", "statement-start", _F % "for (;;) @;", (), True),
+    ("label-body", "statement-start", _F % "L: @;", (), True),
+    ("case-body", "statement-start", _F % "switch (a) { case b: @; }", (), True),
+    ("default-body", "statement-start", _F % "switch (a) { default: @; }", (), True),
+    ("if-condition", "condition", _F % "if (@) ;", (), True),
+    ("while-condition", "condition", _F % "while (@) ;", (), True),
+    ("do-condition", "condition", _F % "do ; while (@);", (), True),
+    ("switch-condition", "condition", _F % "switch (@) ;", (), False),
+    ("for-clause-1", "for-clause", _F % "for (@;;) ;", (), True),
+    ("for-clause-2", "for-clause", _F % "for (;@;) ;", (), True),
+    ("for-clause-3", "for-clause", _F % "for (;;@) ;", (), True),
+    ("return", "operand", _F % "return @;", (), True),
+    ("argument", "operand", _F % "g(@);", (), True),
+    ("second-argument", "operand", _F % "g(a, @);", (), True),
+    ("subscript", "operand", _F % "a[@];", (), False),
+    ("subscripted", "operand", _F % "@[a];", (), True),
+    ("parenthesised", "operand", _F % "(@);", (), True),
+    ("cast-operand", "operand", _F % "(T) @;", (), True),
+    ("sizeof-operand", "operand", _F % "sizeof @;", (), True),
+    ("sizeof-parenthesised", "operand", _F % "sizeof (@);", (), True),
+    ("unary-minus", "operand", _F % "-@;", (), False),
+    ("unary-plus", "operand", _F % "+@;", (), False),
+    ("unary-not", "operand", _F % "~@;", (), False),
+    ("unary-lnot", "operand", _F % "!@;", (), True),
+    ("unary-deref", "operand", _F % "*@;", (), True),
+    ("unary-address", "operand", _F % "&@;", (), True),
+    ("assignment-rhs", "operand", _F % "a = @;", (), True),
+    ("compound-assignment-rhs", "operand", _F % "a += @;", (), False),
+    ("comma-left", "operand", _F % "@, a;", (), True),
+    ("comma-right", "operand", _F % "a, @;", (), True),
+    ("ternary-condition", "operand", _F % "@ ? a : b;", (), True),
+    ("ternary-middle", "operand", _F % "a ? @ : b;", (), True),
+    ("ternary-right", "operand", _F % "a ? b : @;", (), True),
+]
+for _op in ("*", "/", "%", "+", "-", "<<", ">>", "<", ">", "<=", ">=", "==", "!=", "&", "^", "|", "&&", "||"):
+    POSITIONS.append((f"binary-left {_op}", "operand", _F % f"@ {_op} a;", (), _op in ("+", "-", "==", "!=", "&&", "||", "<", ">", "<=", ">=")))
+    POSITIONS.append((f"binary-right {_op}", "operand", _F % f"a {_op} @;", (), _op in ("+", "==", "!=", "&&", "||", "<", ">", "<=", ">=")))
+del _op
+
+POSITION_PREFIX = "typedef int T; "
+
+
+def position_literals():
+    """One well-formed spelling per token type and suffix / prefix class (every
+    table integer and float the reference accepts, character constants and
+    string literals with each prefix)."""
+    out = []
+    for b in lexvocab.INT_BODIES:
+        for suf in lexvocab.INT_SUFFIXES:
+            out.append(b + suf)
+    for b in lexvocab.FLOAT_BODIES:
+        for suf in lexvocab.FLOAT_SUFFIXES:
+            out.append(b + suf)
+    for p in PREFIXES:
+        out += [p + "'a'", p + "'" + BS + "n'", p + "'" + BS + "x41'", p + '"abc"', p + '""']
+    out += ["'ab'", "'ul'", "'abcd'"]
+    res = []
+    for sp in out:
+        v, t, _ = lexref.classify(sp)
+        if v == lexref.ACCEPT and t in lexref.LITERAL_TYPES:
+            res.append((sp, t))
+    return res
+
+
+def _constants(node, acc):
+    from pycparser import c_ast
+
+    if isinstance(node, c_ast.Constant):
+        acc.append((node.type, node.value))
+    if isinstance(node, c_ast.Node):
+        for sl in node.__slots__:
+            if sl not in ("coord", "__weakref__"):
+                _constants(getattr(node, sl), acc)
+    elif isinstance(node, (list, tuple)):
+        for x in node:
+            _constants(x, acc)
+
+
+def check_position(spelling, tok_type, pos):
+    name, cls, template, extra, _ = pos
+    text = POSITION_PREFIX + template.replace("@", spelling)
+    out = core.parse_outcome(text)
+    if out[0] == "exc":
+        return [("parser:exception:" + out[1].split("@")[0], f"{text!r}: {out[1]} {out[2]}")], text
+    if out[0] != "ok":
+        return [(f"{tok_type}:rejected@{cls}", f"{name}: {text!r}: {out[1:]}"[:300])], text
+    got = []
+    _constants(out[1], got)
+    want = [(expected_constant_type(tok_type, spelling), spelling)] + list(extra)
+    if sorted(got) != sorted(want):
+        return [(f"{tok_type}:constant-differs@{cls}",
+                 f"{name}: {text!r}: Constants {got!r}, expected {want!r}")], text
+    return [], text
+
+
+def _position_work(chunk):
+    n = 0
+    fails = []
+    sigs = set()
+    reached = set()
+    for sp, t in chunk:
+        is_str = t.endswith("STRING_LITERAL")
+        for pos in POSITIONS:
+            if (is_str and not pos[4]) or (not is_str and pos[4] == "only"):
+                continue
+            fl, text = check_position(sp, t, pos)
+            n += 1
+            reached.add((t, pos[1]))
+            for sig, det in fl:
+                if sig not in sigs or len(fails) < 20:
+                    fails.append((sig, {"position": pos[0], "literal": sp, "type": t, "text": text}, det))
+                sigs.add(sig)
+    return n, fails, reached
+
+
+# ---------------------------------------------------------------------------
 def run(tier):
     R = core.Run(PID, tier, "model_checking")
     quick = tier == "quick"
@@ -379,6 +533,18 @@ def run(tier):
         R.fail("vacuous:string-runs", {"runs": runs_n, "prefixes": sorted(run_prefixes)},
                "string-run part not explored")
 
+    # (E)
+    plits = position_literals()
+    pos_n = 0
+    pos_reached = set()
+    for n, fl, rc in core.pmap(_position_work, core.chunked(plits, 8), chunksize=1):
+        pos_n += n
+        pos_reached |= rc
+        R.fail_many(fl)
+    if pos_n < len(plits) * 30 or len({t for t, _ in pos_reached}) < 17 or \
+            len({c for _, c in pos_reached}) < 8:
+        R.fail("vacuous:positions", {"parses": pos_n}, "expression-position part not explored")
+
     # vacuity guards
     if charex_strings != sum(17 ** l for l in range(1, L + 1)):
         R.fail("vacuous:too-few-strings", {"strings": charex_strings}, "explored less than the stated bound")
@@ -398,8 +564,11 @@ def run(tier):
 
     R.set("states", tot["ref_items"])
     R.set("transitions", tot["ref_chars"])
-    R.set("traces_validated_against_impl", tot["lexed"] + tot["parsed"] + tot["parsed_any"] + runs_n)
-    R.set("evaluations", tot["lexed"] + tot["parsed"] + tot["parsed_any"] + runs_n)
+    R.set("traces_validated_against_impl", tot["lexed"] + tot["parsed"] + tot["parsed_any"] + runs_n + pos_n)
+    R.set("evaluations", tot["lexed"] + tot["parsed"] + tot["parsed_any"] + runs_n + pos_n)
+    R.set("position_parses", pos_n)
+    R.set("position_literals", len(plits))
+    R.set("positions", [p[0] for p in POSITIONS])
     R.set("string_run_parses", runs_n)
     R.set("string_runs", len(runs))
     R.set("parser_runs_on_lenient_single_literals", tot["parsed_any"])
@@ -445,6 +614,13 @@ def replay(rep):
     c = rep["case"]
     t = c["text"]
     print("input:", repr(t))
+    if "position" in c:
+        pos = next(p for p in POSITIONS if p[0] == c["position"])
+        fl, _ = check_position(c["literal"], c["type"], pos)
+        for sig, det in fl:
+            print("FAIL", sig, det)
+        print("oracle:", "violated" if fl else "fine")
+        return 1 if fl else 0
     if "string_run" in c:
         fl, _ = check_string_run([tuple(x) for x in c["string_run"]], c["unambiguous"],
                                  c["context"], c["sep"])
